@@ -61,6 +61,11 @@ func reachesCallee(u *Universe, f *ssa.Function, full string) bool {
 }
 
 func laRunKind(c *Ctx) {
+	laRunKindCore(c)
+	laRLEThresholds(c)
+}
+
+func laRunKindCore(c *Ctx) {
 	r, u := c.R, c.U
 	fns := rleFuncs(u)
 	// encoder: the function that calls bitpack.Pack and the counter it increments
@@ -1130,4 +1135,271 @@ func onlyRecvGuards(gs []string) []string {
 		}
 	}
 	return out
+}
+
+// laRLEThresholds (C07, C01, C03): the encoder keeps two views of a run of equal values — it stops buffering values
+// once the repeat counter has reached a threshold K1, and elsewhere decides "this is an RLE run, emit it" by a test of
+// the same counter against K2. With K2 > K1 there are counter values (K1 ≤ c < K2) for which values have been counted
+// but neither buffered nor emitted: they are lost (a page whose level stream ends in a run of exactly K1 equal values).
+// Also: the run header the decoder obtained must not be narrowed below 32 bits before the run length is computed, and
+// rle.New accepts exactly the widths the bit packer implements.
+func laRLEThresholds(c *Ctx) {
+	r, u := c.R, c.U
+	fns := rleFuncs(u)
+	// the repeat counter: the field whose value (shifted left by one) is written as an RLE run header
+	var rep *types.Var
+	var runWriter *ssa.Function
+	for _, f := range fns {
+		for _, b := range f.Blocks {
+			for _, ins := range b.Instrs {
+				bo, ok := ins.(*ssa.BinOp)
+				if !ok || bo.Op != token.SHL || !constIs(bo.Y, 1) {
+					continue
+				}
+				if fl := fieldOfLoad(stripConvert(bo.X)); fl != nil {
+					// used as the argument of a call (the varint writer)
+					for _, ref := range *bo.Referrers() {
+						if _, isCall := ref.(*ssa.Call); isCall {
+							rep, runWriter = fl, f
+						}
+					}
+				}
+			}
+		}
+	}
+	if rep == nil {
+		r.undecided("LA-runkind", "encoder repeat counter", "", "no field is written (shifted left by one) as an RLE run header")
+		return
+	}
+	type test struct {
+		k    int64 // counter >= k on the true edge
+		iff  *ssa.If
+		fn   *ssa.Function
+		kind string
+	}
+	var tests []test
+	reachesRun := func(b *ssa.BasicBlock) bool {
+		for _, blk := range append([]*ssa.BasicBlock{b}, reachableBlocks(b)...) {
+			if blk != b && !b.Dominates(blk) {
+				continue
+			}
+			for _, ins := range blk.Instrs {
+				if call, ok := ins.(ssa.CallInstruction); ok && call.Common().StaticCallee() == runWriter {
+					return true
+				}
+			}
+		}
+		return false
+	}
+	// buffering: a non-constant store into an element of an array/slice field of the encoder (the pending group), in
+	// the function itself or in an encoder function it calls
+	var bufFn func(f *ssa.Function, d int) bool
+	bufBlock := func(blk *ssa.BasicBlock, d int) bool {
+		for _, ins := range blk.Instrs {
+			switch x := ins.(type) {
+			case *ssa.Store:
+				if ia, ok := x.Addr.(*ssa.IndexAddr); ok {
+					if _, isC := x.Val.(*ssa.Const); !isC && (fieldOf(ia.X) != nil || fieldOfLoad(ia.X) != nil) {
+						return true
+					}
+				}
+			case ssa.CallInstruction:
+				if sc := x.Common().StaticCallee(); sc != nil && u.pkgPathOf(sc) == rlePath && sc != runWriter && d < 3 && bufFn(sc, d+1) {
+					return true
+				}
+			}
+		}
+		return false
+	}
+	bufMemo := map[*ssa.Function]bool{}
+	bufFn = func(f *ssa.Function, d int) bool {
+		if v, ok := bufMemo[f]; ok {
+			return v
+		}
+		bufMemo[f] = false
+		res := false
+		for _, blk := range f.Blocks {
+			if bufBlock(blk, d) {
+				res = true
+			}
+		}
+		bufMemo[f] = res
+		return res
+	}
+	buffersFrom := func(b *ssa.BasicBlock) bool {
+		for _, blk := range append([]*ssa.BasicBlock{b}, reachableBlocks(b)...) {
+			if bufBlock(blk, 0) {
+				return true
+			}
+		}
+		return false
+	}
+	for _, f := range fns {
+		for _, b := range f.Blocks {
+			iff, ok := lastInstr(b).(*ssa.If)
+			if !ok {
+				continue
+			}
+			bo, ok := iff.Cond.(*ssa.BinOp)
+			if !ok || fieldOfLoad(stripConvert(bo.X)) != rep {
+				continue
+			}
+			kc, ok := bo.Y.(*ssa.Const)
+			if !ok || kc.Value == nil {
+				continue
+			}
+			kv, _ := constant.Int64Val(kc.Value)
+			// hi: the edge on which counter >= k
+			var k int64
+			hi, lo := b.Succs[0], b.Succs[1]
+			switch bo.Op {
+			case token.GEQ:
+				k = kv
+			case token.GTR:
+				k = kv + 1
+			case token.LSS:
+				k, hi, lo = kv, lo, hi
+			case token.LEQ:
+				k, hi, lo = kv+1, lo, hi
+			default:
+				continue
+			}
+			t := test{k: k, iff: iff, fn: f}
+			// what the two edges do: "stop buffering" — below k the value is put into the group buffer, from k on it is not
+			switch {
+			case reachesRun(hi):
+				t.kind = "emit-run"
+			case buffersFrom(lo) && !buffersFrom(hi):
+				t.kind = "stop-buffering"
+			default:
+				continue
+			}
+			tests = append(tests, t)
+		}
+	}
+	var stops, emits []test
+	for _, t := range tests {
+		if t.kind == "stop-buffering" {
+			stops = append(stops, t)
+		} else {
+			emits = append(emits, t)
+		}
+	}
+	r.count("LA-runkind/repeat-thresholds", len(tests))
+	if len(stops) == 0 || len(emits) == 0 {
+		r.undecided("LA-runkind", "encoder repeat thresholds", u.Pos(runWriter.Pos()), fmt.Sprintf("found %d tests that stop buffering and %d that emit an RLE run", len(stops), len(emits)))
+	} else {
+		k1 := stops[0].k
+		for _, s := range stops {
+			if s.k < k1 {
+				k1 = s.k
+			}
+		}
+		for i, e := range emits {
+			key := fmt.Sprintf("%s RLE run threshold #%d", u.FnName(e.fn), i+1)
+			if e.k > k1 {
+				r.bad("LA-runkind", key, u.Pos(e.iff.Pos()), fmt.Sprintf("a run is emitted as RLE only when the repeat counter is >= %d, but values stop being buffered once it is >= %d: with the counter at %d..%d the values have been counted, are in no buffer and are not emitted — a level stream ending in a run of exactly %d equal values loses its last value", e.k, k1, k1, e.k-1, k1))
+			} else {
+				r.ok("LA-runkind", key, u.Pos(e.iff.Pos()), fmt.Sprintf("emit at >= %d, buffering stops at >= %d", e.k, k1))
+			}
+		}
+	}
+	r.floor("LA-runkind/repeat-thresholds", 2, "Write (stop buffering), Write/Bytes (emit)")
+	// decoder: no narrowing of the run header
+	for _, f := range fns {
+		for _, p := range f.Params {
+			if w, _ := intWidth(p.Type()); w != 64 || p.Referrers() == nil {
+				continue
+			}
+			// a header parameter: its value is shifted right by one somewhere
+			isHeader := false
+			var narrow *ssa.Convert
+			var visit func(v ssa.Value, d int)
+			seen := map[ssa.Value]bool{}
+			visit = func(v ssa.Value, d int) {
+				if d > 4 || seen[v] || v.Referrers() == nil {
+					return
+				}
+				seen[v] = true
+				for _, ref := range *v.Referrers() {
+					switch x := ref.(type) {
+					case *ssa.BinOp:
+						if x.Op == token.SHR && constIs(x.Y, 1) {
+							isHeader = true
+						}
+						visit(x, d+1)
+					case *ssa.Convert:
+						if w2, _ := intWidth(x.Type()); w2 > 0 && w2 < 32 {
+							narrow = x
+						}
+						visit(x, d+1)
+					}
+				}
+			}
+			visit(p, 0)
+			if !isHeader {
+				continue
+			}
+			r.count("LA-runkind/header-params", 1)
+			key := u.FnName(f) + " run header width"
+			if narrow != nil {
+				r.bad("LA-runkind", key, u.Pos(narrow.Pos()), "the run header is narrowed to "+narrow.Type().String()+" before the run length is taken from it: runs of 128 groups / values or more (legal, and written by other implementations) are decoded with a wrong length")
+			} else {
+				r.ok("LA-runkind", key, u.Pos(f.Pos()), "the run length is computed from the full header")
+			}
+		}
+	}
+	// New: accepts exactly the widths the bit packer implements
+	newFn := u.Func(rlePath, "New")
+	pack := u.Func(bitpackPath, "Pack")
+	if newFn != nil && pack != nil {
+		maxW := int64(0)
+		for _, b := range pack.Blocks {
+			if iff, ok := lastInstr(b).(*ssa.If); ok {
+				if bo, ok := iff.Cond.(*ssa.BinOp); ok && bo.Op == token.EQL {
+					if k, ok := bo.Y.(*ssa.Const); ok && k.Value != nil && k.Value.Kind() == constant.Int {
+						if kv, _ := constant.Int64Val(k.Value); kv > maxW {
+							maxW = kv
+						}
+					}
+				}
+			}
+		}
+		key := "rle.New accepted widths"
+		found := false
+		for _, b := range newFn.Blocks {
+			iff, ok := lastInstr(b).(*ssa.If)
+			if !ok {
+				continue
+			}
+			bo, ok := iff.Cond.(*ssa.BinOp)
+			if !ok || stripConvert(bo.X) != ssa.Value(newFn.Params[0]) {
+				continue
+			}
+			k, ok := bo.Y.(*ssa.Const)
+			if !ok || k.Value == nil {
+				continue
+			}
+			kv, _ := constant.Int64Val(k.Value)
+			rej := int64(-1) // rejects widths >= rej
+			switch bo.Op {
+			case token.GTR:
+				rej = kv + 1
+			case token.GEQ:
+				rej = kv
+			}
+			if rej < 0 {
+				continue
+			}
+			found = true
+			if rej != maxW+1 {
+				r.bad("LA-runkind", key, u.Pos(iff.Pos()), fmt.Sprintf("rle.New refuses widths >= %d, the bit packer implements widths up to %d: columns whose maximum level needs %d bits cannot be written or read", rej, maxW, rej))
+			} else {
+				r.ok("LA-runkind", key, u.Pos(iff.Pos()), fmt.Sprintf("widths 0..%d, as the bit packer", maxW))
+			}
+		}
+		if !found || maxW == 0 {
+			r.undecided("LA-runkind", key, u.Pos(newFn.Pos()), "the width bound of rle.New / the widths of bitpack.Pack were not recognised")
+		}
+	}
 }
